@@ -8,6 +8,7 @@ from ..harness import Sub, Violation
 from ..refs import gemini_ref as R
 
 QUICK_SCALE = 2  # quick budgets below are multiplied by this (kept at about half a minute on 8 processes)
+THOROUGH_SCALE = 3  # thorough budgets below are multiplied by this (about ten minutes on 16 processes)
 
 RULE = ("derivatives taken in logit space: P=softmax(L), L = scale*Z with scale in {0.1,1,4,10,20,40} (soft to saturated, "
         "clipping active at the largest scales); analytic <P*(g-<P,g>_row),U> vs Richardson central difference of "
